@@ -31,7 +31,7 @@ def gen_cases(ctx, nshards=None):
     nshards = nshards or max(2, min(12, vf.NCPU * 3 // 4))
 
     def one(i):
-        return vf.run_tlc(ctx, "Gen_Cql", cfg, workers=1, heap="3g", timeout=800, deadlock=False,
+        return vf.run_tlc(ctx, "Gen_Cql", cfg, workers=1, heap="2g", timeout=800, deadlock=False,
                           env={"VF_SHARD": i, "VF_NSHARDS": nshards}, name="gen_%d" % i, quiet=True)
 
     cases, states = [], 0
